@@ -649,13 +649,24 @@ func (ex *Exec) mergeWorlds(a, b *World) {
 		}
 		n := &objState{}
 		n.Val = ex.mergeNil(g, sa.Val, sb.Val)
-		if len(sa.Elems) == len(sb.Elems) {
-			n.Elems = make([]Value, len(sa.Elems))
-			for i := range sa.Elems {
-				n.Elems[i] = ex.mergeNil(g, sa.Elems[i], sb.Elems[i])
+		{
+			// the same allocation site may have produced backing arrays of different sizes on
+			// the two sides: merge the common part, keep the longer side's tail
+			m := len(sa.Elems)
+			if len(sb.Elems) > m {
+				m = len(sb.Elems)
 			}
-		} else {
-			n.Elems = sa.Elems
+			n.Elems = make([]Value, m)
+			for i := 0; i < m; i++ {
+				switch {
+				case i >= len(sa.Elems):
+					n.Elems[i] = sb.Elems[i]
+				case i >= len(sb.Elems):
+					n.Elems[i] = sa.Elems[i]
+				default:
+					n.Elems[i] = ex.mergeNil(g, sa.Elems[i], sb.Elems[i])
+				}
+			}
 		}
 		n.Arr, n.Len = sa.Arr, sa.Len
 		if sa.Arr != sb.Arr && sa.Arr != nil && sb.Arr != nil {
@@ -1055,6 +1066,30 @@ func (ex *Exec) Quiesce(maxSteps int) (*Term, []*World) {
 		for _, k := range order {
 			frontier = append(frontier, next[k])
 		}
+	}
+	// the same product location reached after different numbers of steps is one world for the
+	// harness continuation
+	if len(terminal) > 1 && !ex.SplitData {
+		byKey := map[string]*World{}
+		var merged []*World
+		for _, t := range terminal {
+			k := ex.worldKey(t)
+			if old, ok := byKey[k]; ok {
+				ex.mergeWorlds(old, t)
+				ex.NMerges++
+				continue
+			}
+			// private copy of the heap map: mergeWorlds updates it in place
+			h := make(map[*Object]*objState, len(t.heap))
+			for o, s := range t.heap {
+				h[o] = s
+			}
+			t.heap = h
+			t.timers = append([]timerState(nil), t.timers...)
+			byKey[k] = t
+			merged = append(merged, t)
+		}
+		terminal = merged
 	}
 	if os.Getenv("VERIF_DEBUG") == "4" {
 		for _, w := range terminal {
